@@ -84,6 +84,15 @@ def case_st(draw, scenario, steps):
         c["dtw"] = draw(fl(0.95, 1.2)) if rough else draw(fl(0.5, 1.7))
         c["nsteps"] = draw(st.integers(3, 8)) if rough else draw(st.integers(3, 15))
         c["masses"] = [draw(fl(1, 100)) for _ in range(8)]
+        if kind2.startswith("HMC"):
+            # A fixed trajectory length close to a multiple of half the period of some atom maps that atom's x to +-x:
+            # its potential energy then (nearly) never changes and a correct chain mixes arbitrarily slowly.  Choose
+            # the number of integration steps away from these resonances for every atom (a property of HMC, not of quansino).
+            mm = c["masses"][: c["N"]]
+            for ns in list(range(c["nsteps"], c["nsteps"] + 12)):
+                if not hmc_resonant(mm, c["dtw"], ns):
+                    c["nsteps"] = ns
+                    break
     elif kind == "dipole":
         c["x"] = draw(fl(0.3, 5.0))
         c["d"] = draw(fl(0.8, 1.6))
@@ -104,6 +113,17 @@ def case_st(draw, scenario, steps):
     return c
 
 
+def hmc_resonant(masses, dtw, nsteps):
+    """True when the fixed trajectory length is within 12 % of a multiple of half the period of some atom (harmonic
+    wells, dt*omega given for the lightest atom): that atom's x is mapped to about +-x, its potential energy hardly
+    changes from one trajectory to the next and a correct chain mixes arbitrarily slowly (a property of HMC itself)."""
+    for m_i in masses:
+        phase = nsteps * dtw * math.sqrt(min(masses) / m_i)
+        if phase > 0.3 and abs(phase / math.pi - round(phase / math.pi)) < 0.12:
+            return True
+    return False
+
+
 # ------------------------------------------------------------------ statistics helpers
 def batch_z(x, expected, nb=40):
     x = np.asarray(x, dtype=float)
@@ -114,6 +134,12 @@ def batch_z(x, expected, nb=40):
     var = x[:n].var()
     ess = var / (se ** 2) if se > 0 else float(len(x))
     z = (mean - expected) / se if se > 0 else 0.0
+    # batch means are an honest error bar only if the batches are (nearly) independent: correlated neighbouring batches
+    # mean the chain mixes on the scale of a batch or slower - such a chain is inconclusive, whatever its z
+    d = b - b.mean()
+    r1 = float((d[:-1] * d[1:]).sum() / (d * d).sum()) if (d * d).sum() > 0 else 0.0
+    if r1 > 0.4:
+        ess = 0.0
     return mean, se, z, ess
 
 
@@ -253,6 +279,9 @@ def run_harm(c, out):
     x = e[burn:] / kT
     desc = f"{c['scenario']} N={N} T={T:.4g} k={k:.4g} step={c['size']:.3g} thermal widths seed={c['seed']}"
     mean, se, z, ess = batch_z(x, 1.5 * N)
+    if prop.startswith("HMC") and hmc_resonant(c["masses"][:N], c["dtw"], c["nsteps"]):
+        out["labels"].append("hmc-trajectory-length-resonant")
+        ess = 0.0  # inconclusive by construction (see hmc_resonant); the twin-chain oracle above does not depend on mixing
     out["acc"], out["ess"] = acc / c["steps"], ess
     if ess < 50:
         return
